@@ -209,6 +209,11 @@ class FunctorPool:
                 self.run_event.wait()
 
             self.pool._sending_work = False
+            try:
+                # wakes up the consumer that may be already waiting for results that will never come
+                self.pool._results_queue.put(None, block=False)
+            except queue.Full:
+                pass  # there are results in the queue, so the consumer will wake up anyway
 
     def __init__(self, workers: List[BaseFunctorWorker[T, R]], context: Optional[BaseContext] = None,
                  work_queue_maxsize: Optional[Union[int, float]] = 1.0,
@@ -307,20 +312,30 @@ class FunctorPool:
         if self._results_queue.qsize() > 0:
             chunks = []
             indexes = []
+            woken_up = False
 
             with self._results_queue_lock:
                 try:
                     while self._results_queue.qsize() > 0:
-                        res_i, res_chunk = self._results_queue.get(block=False)
+                        q_item = self._results_queue.get(block=False)
+                        if q_item is None:
+                            # just a wake up from the thread that sends work
+                            woken_up = True
+                            continue
+                        res_i, res_chunk = q_item
                         chunks.append(res_chunk)
                         indexes.append(res_i)
                 except queue.Empty:
                     ...
 
-            if len(chunks) > 0:
+            if len(chunks) > 0 or woken_up:
                 return indexes, chunks
 
-        res_i, res_chunk = self._results_queue.get()
+        q_item = self._results_queue.get()
+        if q_item is None:
+            # just a wake up from the thread that sends work
+            return [], []
+        res_i, res_chunk = q_item
         return [res_i], [res_chunk]
 
     def imap(self, data: Iterable[T], chunk_size: int = 1) -> Generator[R, None, None]:
